@@ -65,6 +65,10 @@ func caseOf(text []byte) DocCase {
 
 var signKey, _ = hex.DecodeString("8d01666832be7eb2dbd57cd3d4410d0231a91533f895de76d0930c689618aefd")
 
+// the signer (deriving the public key costs more than most documents take to judge; a
+// KeyPair is read-only when signing)
+var signer = secp256k1.KeyPairFromBytes(signKey)
+
 // observation of the library on one text
 type observation struct {
 	unmarshalErr error
@@ -94,7 +98,7 @@ func observe(text []byte) (o observation, vs []evid.Violation) {
 	}
 	_ = json.Unmarshal(text, &td2)
 	if pv := evid.Guard("no-panic:sign", func() {
-		res, err := ethsigner.SignTypedDataV4(ctx, secp256k1.KeyPairFromBytes(signKey), &td2)
+		res, err := ethsigner.SignTypedDataV4(ctx, signer, &td2)
 		o.signErr = err
 		if err == nil && res != nil {
 			o.signHash = res.Hash
@@ -159,6 +163,13 @@ var lastRef eip712ref.Verdict
 func judgeDoc(c DocCase) []evid.Violation {
 	vs, o, ref := judgeText(c.text())
 	lastObs, lastRef = o, ref
+	return vs
+}
+
+// judgeDocPure is judgeDoc without the package-level leftovers: the judge of the
+// concurrent kind (several goroutines at once).
+func judgeDocPure(c DocCase) []evid.Violation {
+	vs, _, _ := judgeText(c.text())
 	return vs
 }
 
@@ -274,6 +285,215 @@ func clip(s string) string {
 		return s[:90] + "…"
 	}
 	return s
+}
+
+// ---- kind "history": one TypedData value (or a few) used again and again
+//
+// Decode a document, hash, decode the next document into the SAME variable (with and
+// without clearing it), replace an integer of the domain / message in place by another
+// spelling, another value, a value outside the range of its type, delete values, hash
+// again.  tdgen.RunSession judges every hash by what the variable holds at that moment:
+// no panic; where the reference calls the content well-formed, its digest; where a value
+// cannot have its declared type (integer out of range, …), an error; and always the same
+// verdict as a new TypedData with the same content gives.
+
+func judgeHistory(c tdgen.Session) []evid.Violation {
+	return tdgen.RunSession(c, tdgen.Options{Signer: signer})
+}
+
+func intPath(pos string) []string {
+	switch pos {
+	case "array":
+		return []string{"message", "v", "1"}
+	case "nested":
+		return []string{"message", "inner", "v"}
+	case "domain":
+		return []string{"domain", "chainId"}
+	}
+	return []string{"message", "v"}
+}
+
+// spelledInt renders v in a drawn spelling.
+func spelledInt(rt *rapid.T, label string, v *big.Int) (*eip712ref.JNode, string) {
+	switch f := rapid.IntRange(0, 3).Draw(rt, label+".form"); {
+	case f == 0:
+		return eip712ref.JNum(v.String()), "number"
+	case f == 1 && v.Sign() >= 0:
+		return eip712ref.JStr("0x" + v.Text(16)), "hex-string"
+	case f == 2:
+		return eip712ref.JNum(exoticLiteral(rt, v)), "number-with-fraction/exponent"
+	default:
+		return eip712ref.JStr(v.String()), "decimal-string"
+	}
+}
+
+func genHistory(rt *rapid.T) (tdgen.Session, []string, bool) {
+	classes := map[string]bool{}
+	var steps []tdgen.Step
+	via := func(l string) string { return rapid.SampledFrom([]string{"", "", "sign"}).Draw(rt, l+".via") }
+	how := func(l string, doc string) tdgen.Step {
+		st := tdgen.Step{Var: rapid.IntRange(0, 1).Draw(rt, l+".var"), Op: "decode", Doc: doc, Via: via(l)}
+		switch rapid.IntRange(0, 5).Draw(rt, l+".how") {
+		case 0:
+			st.Var = -1
+		case 1, 2:
+			st.Op = "reset-decode"
+		}
+		classes["hist:"+st.Op] = true
+		return st
+	}
+	nt := false
+	switch mode := rapid.IntRange(0, 2).Draw(rt, "mode"); mode {
+	case 0:
+		// one integer slot, many values and spellings
+		classes["hist:integers"] = true
+		first := genIntCase(rt)
+		kind, bits := eip712ref.Atomic(first.Type)
+		signed := kind == eip712ref.KInt
+		value := func(l string) *big.Int {
+			switch rapid.IntRange(0, 3).Draw(rt, l+".vmode") {
+			case 0:
+				return rapid.SampledFrom(boundaryValues(signed, bits)).Draw(rt, l+".boundary")
+			case 1:
+				lo, hi := typeRange(signed, bits)
+				return new(big.Int).Add(rapid.SampledFrom([]*big.Int{lo, hi}).Draw(rt, l+".edge"), big.NewInt(int64(rapid.IntRange(-2, 2).Draw(rt, l+".delta"))))
+			case 2:
+				return big.NewInt(int64(rapid.IntRange(-300, 300).Draw(rt, l+".small")))
+			}
+			v := gen.Uint(rt, l+".v", 257)
+			if rapid.Bool().Draw(rt, l+".neg") {
+				v = new(big.Int).Neg(v)
+			}
+			return v
+		}
+		v0, _ := new(big.Int).SetString(first.Value, 10)
+		if rapid.Bool().Draw(rt, "startInRange") && !eip712ref.InRange(v0, signed, bits) {
+			// most histories start with a document that hashes
+			v0 = big.NewInt(int64(rapid.IntRange(0, 100).Draw(rt, "v0")))
+		}
+		n0, _ := spelledInt(rt, "s0", v0)
+		steps = append(steps, how("s0", intDoc(first.Type, first.Pos, n0).Text()))
+		n := rapid.IntRange(2, 6).Draw(rt, "nSteps")
+		for i := 1; i <= n; i++ {
+			l := fmt.Sprintf("s%d", i)
+			v := value(l)
+			node, form := spelledInt(rt, l, v)
+			classes["hist:int-form:"+form] = true
+			if eip712ref.InRange(v, signed, bits) {
+				classes["hist:int:in-range"] = true
+			} else {
+				classes["hist:int:out-of-range"] = true
+			}
+			if new(big.Int).Abs(v).Cmp(pow2(53)) >= 0 {
+				nt = true
+			}
+			switch rapid.IntRange(0, 4).Draw(rt, l+".op") {
+			case 0, 1:
+				// the next document, same shape, into a variable
+				pos := first.Pos
+				if rapid.IntRange(0, 3).Draw(rt, l+".otherPos") == 0 {
+					pos = rapid.SampledFrom([]string{"member", "array", "nested", "domain"}).Draw(rt, l+".pos")
+				}
+				steps = append(steps, how(l, intDoc(first.Type, pos, node).Text()))
+			case 2:
+				// the type of the slot changes in place (its value stays)
+				t := first.Type
+				if signed {
+					t = fmt.Sprintf("int%d", 8*rapid.IntRange(1, 32).Draw(rt, l+".bits"))
+				} else {
+					t = fmt.Sprintf("uint%d", 8*rapid.IntRange(1, 32).Draw(rt, l+".bits"))
+				}
+				tn, mi := "T", "1"
+				switch first.Pos {
+				case "array":
+					t += "[]"
+				case "nested":
+					tn, mi = "U", "0"
+				case "domain":
+					tn = eip712ref.DomainType
+				}
+				steps = append(steps, tdgen.Step{Var: rapid.IntRange(0, 1).Draw(rt, l+".var"), Op: "set-member", Path: []string{tn, mi, "type"}, Value: t, Via: via(l)})
+				classes["hist:retype-in-place"] = true
+			default:
+				steps = append(steps, tdgen.Step{Var: rapid.IntRange(0, 1).Draw(rt, l+".var"), Op: "set", Path: intPath(first.Pos), Value: node.Text(), Via: via(l)})
+				classes["hist:set-in-place:"+first.Pos] = true
+			}
+		}
+	default:
+		// related documents: a well-formed one and damaged copies of it (mode 1), or unrelated mutants (mode 2)
+		classes[[]string{"", "hist:damaged-copies", "hist:mutants"}[mode]] = true
+		nt = true
+		base := tdgen.GenDoc(rt, 3, false).Root
+		n := rapid.IntRange(2, 5).Draw(rt, "nDocs")
+		for i := 0; i < n; i++ {
+			l := fmt.Sprintf("d%d", i)
+			var root *eip712ref.JNode
+			switch {
+			case mode == 2 && i > 0:
+				root = tdgen.GenDoc(rt, 3, false).Root
+				mutate(rt, root, 10*i, "")
+			case i == 0 && rapid.Bool().Draw(rt, "startWellFormed"):
+				root = base.Clone()
+			default:
+				root = base.Clone()
+				for k := rapid.IntRange(1, 2).Draw(rt, l+".nmut"); k > 0; k-- {
+					mutate(rt, root, 10*i+k, "")
+				}
+			}
+			text := root.Text()
+			if len(text) > maxDocBytes/4 {
+				text = base.Text()
+			}
+			steps = append(steps, how(l, text))
+			// now and then an edit in place at a position of this document
+			if rapid.IntRange(0, 2).Draw(rt, l+".edit") == 0 {
+				var slots []slot
+				var paths [][]string
+				for _, region := range []string{"domain", "message"} {
+					if sub := root.Get(region); sub != nil {
+						collectPaths(sub, []string{region}, &slots, &paths)
+					}
+				}
+				if len(paths) > 0 {
+					k := rapid.IntRange(0, len(paths)-1).Draw(rt, l+".slot")
+					st := tdgen.Step{Var: rapid.IntRange(0, 1).Draw(rt, l+".evar"), Op: "set", Path: paths[k], Via: via(l + ".e")}
+					switch rapid.IntRange(0, 3).Draw(rt, l+".eop") {
+					case 0:
+						st.Op = "del"
+					case 1:
+						st.Value = rapid.SampledFrom([]string{"-1", "1.5", "1e400", "9007199254740993", "18446744073709551616", "115792089237316195423570985008687907853269984665640564039457584007913129639936", `"115792089237316195423570985008687907853269984665640564039457584007913129639936"`, `"-1"`, `"0x10000000000000000000000000000000000000000000000000000000000000000"`, "null", "{}", "[]"}).Draw(rt, l+".evalue")
+					default:
+						st.Value = tdgen.JunkValue(rt, l+".junk", 2).Text()
+					}
+					classes["hist:"+st.Op+"-in-place"] = true
+					steps = append(steps, st)
+				}
+			}
+		}
+	}
+	var cl []string
+	for c, on := range classes {
+		if on && c != "" {
+			cl = append(cl, c)
+		}
+	}
+	cl = append(cl, fmt.Sprintf("hist:steps:%d", len(steps)))
+	sort.Strings(cl)
+	return tdgen.Session{Steps: steps}, cl, nt
+}
+
+// collectPaths lists the positions below n with their paths (object keys / array indexes).
+func collectPaths(n *eip712ref.JNode, path []string, slots *[]slot, paths *[][]string) {
+	for i, v := range n.Vals {
+		key := fmt.Sprint(i)
+		if n.Kind == 'o' {
+			key = n.Keys[i]
+		}
+		p := append(append([]string(nil), path...), key)
+		*slots = append(*slots, slot{n, i, len(p)})
+		*paths = append(*paths, p)
+		collectPaths(v, p, slots, paths)
+	}
 }
 
 // ---- generators: integers
@@ -455,7 +675,8 @@ func junkScalar(rt *rapid.T, label string) *eip712ref.JNode {
 }
 
 // mutate applies one generated mutation to the document tree and reports its label.
-func mutate(rt *rapid.T, root *eip712ref.JNode, step int) string {
+// focus (optional) names a struct type that mutations of type definitions prefer.
+func mutate(rt *rapid.T, root *eip712ref.JNode, step int, focus string) string {
 	L := func(s string) string { return fmt.Sprintf("m%d.%s", step, s) }
 	types := root.Get("types")
 	cat := rapid.IntRange(0, 99).Draw(rt, L("cat"))
@@ -551,104 +772,23 @@ func mutate(rt *rapid.T, root *eip712ref.JNode, step int) string {
 			s.parent.Vals[s.idx] = eip712ref.JNum(rapid.SampledFrom([]string{"1.5", "-1", "1e400", "-1e400", "1e-400", "9007199254740993", "9223372036854775808", "18446744073709551616", "115792089237316195423570985008687907853269984665640564039457584007913129639936", "-57896044618658097711785492504343953926634992332820282019728792003956564819969", "0.1", "-0", "1E2", "123456789012345678901234567890"}).Draw(rt, L("num")))
 			return "pos:number@" + region
 		}
-	case cat < 65 && types != nil && types.Kind == 'o' && len(types.Vals) > 0:
+	case cat < 62 && types != nil && types.Kind == 'o' && len(types.Vals) > 0:
 		ti := rapid.IntRange(0, len(types.Vals)-1).Draw(rt, L("type"))
-		def := types.Vals[ti]
-		op := rapid.IntRange(0, 15).Draw(rt, L("top"))
-		if op >= 10 || def.Kind != 'a' || len(def.Vals) == 0 {
-			// whole definition
-			switch rapid.IntRange(0, 9).Draw(rt, L("defop")) {
-			case 0:
-				types.Vals[ti] = eip712ref.JNull()
-				return "types:def-null"
-			case 1:
-				types.Vals[ti] = eip712ref.JArr(eip712ref.JNull())
-				return "types:def-[null]"
-			case 2:
-				types.Vals[ti] = eip712ref.JArr(eip712ref.JObj())
-				return "types:def-[{}]"
-			case 3:
-				types.Vals[ti] = eip712ref.JArr(&eip712ref.JNode{Kind: 'a'})
-				return "types:def-[[]]"
-			case 4:
-				types.Vals[ti] = tdgen.JunkValue(rt, L("junk"), 1)
-				return "types:def-junk"
-			case 5:
-				// rename: references to it become undefined
-				types.Keys[ti] = rapid.SampledFrom([]string{"Renamed", "", "uint256", "string", "bool[]", "EIP712Domain", strings.ToLower(types.Keys[ti])}).Draw(rt, L("rename"))
-				return "types:rename-def"
-			case 6:
-				if def.Kind == 'a' {
-					def.Vals = append(def.Vals, eip712ref.JNull())
-					return "types:append-null-member"
-				}
-				types.Vals[ti] = eip712ref.JArr(eip712ref.JNull(), eip712ref.JNull())
-				return "types:def-[null,null]"
-			case 7:
-				if def.Kind == 'a' {
-					pos := rapid.IntRange(0, len(def.Vals)).Draw(rt, L("ins"))
-					m := eip712ref.JObj().Set("name", eip712ref.JStr(rapid.SampledFrom(oddNames).Draw(rt, L("n")))).Set("type", eip712ref.JStr(rapid.SampledFrom(oddTypes).Draw(rt, L("t"))))
-					def.Vals = append(def.Vals[:pos:pos], append([]*eip712ref.JNode{m}, def.Vals[pos:]...)...)
-					return "types:insert-odd-member"
-				}
-				types.Vals[ti] = &eip712ref.JNode{Kind: 'a'}
-				return "types:def-empty"
-			case 8:
-				types.Vals[ti] = &eip712ref.JNode{Kind: 'a'}
-				return "types:def-empty"
-			default:
-				types.Keys = append(types.Keys[:ti:ti], types.Keys[ti+1:]...)
-				types.Vals = append(types.Vals[:ti:ti], types.Vals[ti+1:]...)
-				return "types:remove-def"
-			}
+		if fi := indexOfKey(types, focus); focus != "" && fi < len(types.Keys) && types.Keys[fi] == focus && rapid.IntRange(0, 2).Draw(rt, L("focus")) != 0 {
+			ti = fi
 		}
-		mi := rapid.IntRange(0, len(def.Vals)-1).Draw(rt, L("member"))
-		m := def.Vals[mi]
-		if m.Kind != 'o' {
-			def.Vals[mi] = eip712ref.JObj().Set("name", eip712ref.JStr("x")).Set("type", eip712ref.JStr("uint256"))
-			return "types:member-restore"
+		return mutateTypeDef(rt, L, types, ti)
+	case cat < 67 && types != nil && types.Kind == 'o' && len(types.Vals) > 0:
+		// give one struct type an odd name, consistently (key, primaryType, member types) …
+		name, ok := renameOdd(rt, L("odd"), root, -1)
+		if !ok {
+			return "types:odd-name-none"
 		}
-		tnode := m.Get("type")
-		cur := ""
-		if tnode != nil && tnode.Kind == 's' {
-			cur = tnode.Str
+		// … and half of the time damage the definition of that very type as well
+		if rapid.Bool().Draw(rt, L("also")) {
+			return "types:odd-struct-name+" + strings.TrimPrefix(mutateTypeDef(rt, L, types, indexOfKey(types, name)), "types:")
 		}
-		switch op {
-		case 0, 1:
-			m.Set("type", eip712ref.JStr(cur+rapid.SampledFrom(badSuffixes).Draw(rt, L("suffix"))))
-			return "types:malformed-array-suffix"
-		case 2:
-			m.Set("type", eip712ref.JStr(rapid.SampledFrom(oddTypes).Draw(rt, L("odd"))))
-			return "types:odd-member-type"
-		case 3:
-			// point at a struct (possibly itself): new cycles / shape mismatches with the value
-			target := types.Keys[rapid.IntRange(0, len(types.Keys)-1).Draw(rt, L("target"))]
-			m.Set("type", eip712ref.JStr(target+rapid.SampledFrom([]string{"", "", "[]", "[2]", "[][]"}).Draw(rt, L("tsuffix"))))
-			return "types:retarget-to-struct"
-		case 4:
-			// add or change a well-formed array suffix: value no longer has the shape
-			base := cur
-			if i := strings.IndexByte(cur, '['); i >= 0 && rapid.Bool().Draw(rt, L("strip")) {
-				base = cur[:i]
-			}
-			m.Set("type", eip712ref.JStr(base+rapid.SampledFrom([]string{"[]", "[1]", "[2]", "[3]", "[4]", "[][]", "[2][2]", ""}).Draw(rt, L("dims"))))
-			return "types:change-dimensions"
-		case 5:
-			m.Set("type", eip712ref.JStr(tdgen.AtomicType(rt, L("atomic"))))
-			return "types:other-atomic"
-		case 6:
-			m.Set("name", eip712ref.JStr(rapid.SampledFrom(oddNames).Draw(rt, L("oddname"))))
-			return "types:odd-member-name"
-		case 7:
-			m.Set(rapid.SampledFrom([]string{"name", "type"}).Draw(rt, L("field")), tdgen.JunkValue(rt, L("junk"), 1))
-			return "types:member-field-kind"
-		case 8:
-			m.Del(rapid.SampledFrom([]string{"name", "type"}).Draw(rt, L("field")))
-			return "types:member-field-missing"
-		default:
-			def.Vals[mi] = rapid.SampledFrom([]*eip712ref.JNode{eip712ref.JNull(), eip712ref.JStr("uint256 x"), eip712ref.JNum("1"), {Kind: 'a'}, eip712ref.JBool(true)}).Draw(rt, L("memberkind")).Clone()
-			return "types:member-kind"
-		}
+		return "types:odd-struct-name"
 	case cat < 73:
 		switch rapid.IntRange(0, 7).Draw(rt, L("pt")) {
 		case 0:
@@ -759,6 +899,206 @@ func mutate(rt *rapid.T, root *eip712ref.JNode, step int) string {
 	}
 }
 
+// mutateTypeDef applies one generated mutation to the definition of struct type number ti
+// (the whole definition, or one of its members).
+func mutateTypeDef(rt *rapid.T, L func(string) string, types *eip712ref.JNode, ti int) string {
+	def := types.Vals[ti]
+	op := rapid.IntRange(0, 15).Draw(rt, L("top"))
+	if op >= 10 || def.Kind != 'a' || len(def.Vals) == 0 {
+		// whole definition
+		switch rapid.IntRange(0, 9).Draw(rt, L("defop")) {
+		case 0:
+			types.Vals[ti] = eip712ref.JNull()
+			return "types:def-null"
+		case 1:
+			types.Vals[ti] = eip712ref.JArr(eip712ref.JNull())
+			return "types:def-[null]"
+		case 2:
+			types.Vals[ti] = eip712ref.JArr(eip712ref.JObj())
+			return "types:def-[{}]"
+		case 3:
+			types.Vals[ti] = eip712ref.JArr(&eip712ref.JNode{Kind: 'a'})
+			return "types:def-[[]]"
+		case 4:
+			types.Vals[ti] = tdgen.JunkValue(rt, L("junk"), 1)
+			return "types:def-junk"
+		case 5:
+			// rename: references to it become undefined
+			types.Keys[ti] = rapid.SampledFrom([]string{"Renamed", "", "uint256", "string", "bool[]", "EIP712Domain", strings.ToLower(types.Keys[ti])}).Draw(rt, L("rename"))
+			return "types:rename-def"
+		case 6:
+			if def.Kind == 'a' {
+				def.Vals = append(def.Vals, eip712ref.JNull())
+				return "types:append-null-member"
+			}
+			types.Vals[ti] = eip712ref.JArr(eip712ref.JNull(), eip712ref.JNull())
+			return "types:def-[null,null]"
+		case 7:
+			if def.Kind == 'a' {
+				pos := rapid.IntRange(0, len(def.Vals)).Draw(rt, L("ins"))
+				m := eip712ref.JObj().Set("name", eip712ref.JStr(rapid.SampledFrom(oddNames).Draw(rt, L("n")))).Set("type", eip712ref.JStr(rapid.SampledFrom(oddTypes).Draw(rt, L("t"))))
+				def.Vals = append(def.Vals[:pos:pos], append([]*eip712ref.JNode{m}, def.Vals[pos:]...)...)
+				return "types:insert-odd-member"
+			}
+			types.Vals[ti] = &eip712ref.JNode{Kind: 'a'}
+			return "types:def-empty"
+		case 8:
+			types.Vals[ti] = &eip712ref.JNode{Kind: 'a'}
+			return "types:def-empty"
+		default:
+			types.Keys = append(types.Keys[:ti:ti], types.Keys[ti+1:]...)
+			types.Vals = append(types.Vals[:ti:ti], types.Vals[ti+1:]...)
+			return "types:remove-def"
+		}
+	}
+	mi := rapid.IntRange(0, len(def.Vals)-1).Draw(rt, L("member"))
+	m := def.Vals[mi]
+	if m.Kind != 'o' {
+		def.Vals[mi] = eip712ref.JObj().Set("name", eip712ref.JStr("x")).Set("type", eip712ref.JStr("uint256"))
+		return "types:member-restore"
+	}
+	tnode := m.Get("type")
+	cur := ""
+	if tnode != nil && tnode.Kind == 's' {
+		cur = tnode.Str
+	}
+	switch op {
+	case 0, 1:
+		m.Set("type", eip712ref.JStr(cur+rapid.SampledFrom(badSuffixes).Draw(rt, L("suffix"))))
+		return "types:malformed-array-suffix"
+	case 2:
+		m.Set("type", eip712ref.JStr(rapid.SampledFrom(oddTypes).Draw(rt, L("odd"))))
+		return "types:odd-member-type"
+	case 3:
+		// point at a struct (possibly itself): new cycles / shape mismatches with the value
+		target := types.Keys[rapid.IntRange(0, len(types.Keys)-1).Draw(rt, L("target"))]
+		m.Set("type", eip712ref.JStr(target+rapid.SampledFrom([]string{"", "", "[]", "[2]", "[][]"}).Draw(rt, L("tsuffix"))))
+		return "types:retarget-to-struct"
+	case 4:
+		// add or change a well-formed array suffix: value no longer has the shape
+		base := cur
+		if i := strings.IndexByte(cur, '['); i >= 0 && rapid.Bool().Draw(rt, L("strip")) {
+			base = cur[:i]
+		}
+		m.Set("type", eip712ref.JStr(base+rapid.SampledFrom([]string{"[]", "[1]", "[2]", "[3]", "[4]", "[][]", "[2][2]", ""}).Draw(rt, L("dims"))))
+		return "types:change-dimensions"
+	case 5:
+		m.Set("type", eip712ref.JStr(tdgen.AtomicType(rt, L("atomic"))))
+		return "types:other-atomic"
+	case 6:
+		m.Set("name", eip712ref.JStr(rapid.SampledFrom(oddNames).Draw(rt, L("oddname"))))
+		return "types:odd-member-name"
+	case 7:
+		m.Set(rapid.SampledFrom([]string{"name", "type"}).Draw(rt, L("field")), tdgen.JunkValue(rt, L("junk"), 1))
+		return "types:member-field-kind"
+	case 8:
+		m.Del(rapid.SampledFrom([]string{"name", "type"}).Draw(rt, L("field")))
+		return "types:member-field-missing"
+	default:
+		def.Vals[mi] = rapid.SampledFrom([]*eip712ref.JNode{eip712ref.JNull(), eip712ref.JStr("uint256 x"), eip712ref.JNum("1"), {Kind: 'a'}, eip712ref.JBool(true)}).Draw(rt, L("memberkind")).Clone()
+		return "types:member-kind"
+	}
+}
+
+// oddStructNames are names no struct type should have: with brackets (the library strips
+// member types at the first '[' when it collects dependencies and reads a trailing ']' as
+// an array), with the separators of encodeType, blank, non-ASCII, shadowing atomic and
+// ABI-only types, looking like arrays of something.
+var oddStructNames = []string{
+	"Foo[x", "Foo[]", "Foo[2]", "Foo[", "Foo]", "Foo[][]", "Foo[0]", "Foo[-1]", "Foo[]x", "[", "]", "[]", "[1]", "[x", "][", "a[b]c",
+	"", " ", "a b", " Foo", "Foo ", "a,b", "a(b", "a)b", "(", ")", "()", "(uint256)", "Foo(uint256 x)", "Foo,uint256 x", "x)Foo(", ".", "a.b",
+	"é", "漢字", "\u0000", "\u2028", "😀", "\"", "\\",
+	"uint256", "uint8", "int256", "int8", "bytes32", "bytes1", "bytes", "string", "bool", "address",
+	"uint", "int", "byte", "tuple", "function", "fixed", "ufixed128x18", "uint7", "bytes33",
+	"uint256[]", "string[]", "bool[2]", "bytes1[", "tuple[]", "address[x",
+	"EIP712Domain[]", "EIP712Domain[", "EIP712Domain ", "eip712domain", "EIP712Domain(",
+}
+
+// structRefBase is the part of a member type that selects the struct: everything before the
+// array suffixes the generator itself wrote (the longest suffix of "[]" / "[n]" groups).
+func splitGeneratedSuffix(t string) (base, suffix string) {
+	end := len(t)
+	for end > 0 && t[end-1] == ']' {
+		i := strings.LastIndexByte(t[:end], '[')
+		if i < 0 {
+			break
+		}
+		ok := true
+		for _, c := range t[i+1 : end-1] {
+			if c < '0' || c > '9' {
+				ok = false
+			}
+		}
+		if !ok {
+			break
+		}
+		end = i
+	}
+	return t[:end], t[end:]
+}
+
+// renameStruct renames struct type old to name everywhere it is used as a name: as key of
+// types, as primaryType and as (base of a) member type.
+func renameStruct(root *eip712ref.JNode, old, name string) {
+	types := root.Get("types")
+	if types == nil || types.Kind != 'o' {
+		return
+	}
+	for i, k := range types.Keys {
+		if k == old {
+			types.Keys[i] = name
+		}
+	}
+	if p := root.Get("primaryType"); p != nil && p.Kind == 's' && p.Str == old {
+		p.Str = name
+	}
+	for _, def := range types.Vals {
+		if def.Kind != 'a' {
+			continue
+		}
+		for _, m := range def.Vals {
+			if t := m.Get("type"); m.Kind == 'o' && t != nil && t.Kind == 's' {
+				if base, suffix := splitGeneratedSuffix(t.Str); base == old {
+					t.Str = name + suffix
+				}
+			}
+		}
+	}
+}
+
+// renameOdd gives one struct type of the document (number which, or a drawn one with a
+// preference for the primary type) an odd name, consistently.  It reports the new name.
+func renameOdd(rt *rapid.T, label string, root *eip712ref.JNode, which int) (string, bool) {
+	types := root.Get("types")
+	if types == nil || types.Kind != 'o' || len(types.Keys) == 0 {
+		return "", false
+	}
+	if which < 0 {
+		which = rapid.IntRange(0, len(types.Keys)-1).Draw(rt, label+".which")
+		if p := root.Get("primaryType"); p != nil && p.Kind == 's' && rapid.Bool().Draw(rt, label+".primary") {
+			if pi := indexOfKey(types, p.Str); types.Keys[pi] == p.Str {
+				which = pi
+			}
+		}
+	}
+	old := types.Keys[which]
+	var name string
+	switch rapid.IntRange(0, 3).Draw(rt, label+".mode") {
+	case 0:
+		// the old name with something appended: prefixes of one another become frequent
+		name = old + rapid.SampledFrom(append([]string{"[]", "[2]", "[x", " ", ",", "(", ")", "()", "[][]"}, badSuffixes...)).Draw(rt, label+".suffix")
+	default:
+		name = rapid.SampledFrom(oddStructNames).Draw(rt, label+".name")
+	}
+	for _, k := range types.Keys {
+		if k == name {
+			return "", false
+		}
+	}
+	renameStruct(root, old, name)
+	return name, true
+}
+
 func indexOfKey(n *eip712ref.JNode, key string) int {
 	for i := len(n.Keys) - 1; i >= 0; i-- {
 		if n.Keys[i] == key {
@@ -851,6 +1191,75 @@ func arbitraryJSON(rt *rapid.T) []byte {
 	}
 }
 
+// ---- bounded exhaustive: tiny documents around one (oddly) named struct type
+//
+// name x shape of its definition x how the name is used (primaryType, member type, element
+// type, below EIP712Domain) x value offered for it.  The mutation generator reaches these
+// combinations only with small probability each; the product is small enough to enumerate.
+
+var tinyDefs = []string{
+	`null`, `[]`, `[null]`, `[{}]`, `[[]]`, `"x"`, `{}`,
+	`[{"name":"a","type":"uint256"}]`, `[{"name":"a","type":%N}]`, `[{"name":"a","type":%A}]`, `[{"name":"a","type":"Other"}]`,
+	`[{"name":"a"}]`, `[{"type":"uint256"}]`, `[{"name":null,"type":null}]`,
+	`[null,{"name":"a","type":"uint256"}]`, `[{"name":"a","type":"uint256"},null]`, `[{"name":"a","type":%N},null]`,
+	`[{"name":"a","type":"string"},{"name":"a","type":"string"}]`,
+}
+
+var tinyValues = []string{`{}`, `null`, ``, `{"a":1}`, `{"a":"1"}`, `{"a":null}`, `{"a":{}}`, `{"a":{"a":{"a":null}}}`, `{"a":[null]}`, `{"a":[{}]}`, `[]`, `[{}]`, `"x"`, `1`}
+
+var tinyUses = []string{"primary", "member", "element", "domain-member", "is-domain"}
+
+func tinyNames() []string {
+	return append([]string{"Foo", "EIP712Domain"}, oddStructNames...)
+}
+
+// tinyDoc renders one combination; ok is false for combinations that do not exist.
+func tinyDoc(name, def, use, value string) (text string, ok bool) {
+	q := func(s string) string { return eip712ref.JStr(s).Text() }
+	def = strings.ReplaceAll(strings.ReplaceAll(def, "%N", q(name)), "%A", q(name+"[]"))
+	field := func(key, v string) string {
+		if v == "" {
+			return ""
+		}
+		return `,"` + key + `":` + v
+	}
+	wrap := func(v string) string {
+		if v == "" {
+			return `{}`
+		}
+		return `{"m":` + v + `}`
+	}
+	other := `,"Other":[null]`
+	if name == "Other" {
+		other = ""
+	}
+	switch use {
+	case "primary":
+		return `{"types":{` + q(name) + `:` + def + other + `},"primaryType":` + q(name) + field("message", value) + `}`, true
+	case "member":
+		if name == "W" {
+			return "", false
+		}
+		return `{"types":{"W":[{"name":"m","type":` + q(name) + `}],` + q(name) + `:` + def + other + `},"primaryType":"W","message":` + wrap(value) + `}`, true
+	case "element":
+		if name == "W" {
+			return "", false
+		}
+		if value != "" {
+			value = `[` + value + `]`
+		}
+		return `{"types":{"W":[{"name":"m","type":` + q(name+"[]") + `}],` + q(name) + `:` + def + other + `},"primaryType":"W","message":` + wrap(value) + `}`, true
+	case "domain-member":
+		if name == eip712ref.DomainType {
+			return "", false
+		}
+		return `{"types":{"EIP712Domain":[{"name":"m","type":` + q(name) + `}],` + q(name) + `:` + def + other + `},"primaryType":"EIP712Domain","domain":` + wrap(value) + `}`, true
+	default:
+		// the definition is that of EIP712Domain itself, the name is what it refers to
+		return `{"types":{"EIP712Domain":` + def + other + `},"primaryType":` + q(name) + field("domain", value) + `,"message":{}}`, true
+	}
+}
+
 func docClasses(label string, text []byte, o observation, ref eip712ref.Verdict) (cl []string, nt bool) {
 	cl = append(cl, label)
 	valid := json.Valid(text)
@@ -890,13 +1299,42 @@ func genMutant(rt *rapid.T) ([]byte, string) {
 	if rapid.IntRange(0, 9).Draw(rt, "textLevel") == 0 {
 		return textMutation(rt, []byte(root.Text()))
 	}
+	// one document in five has oddly named struct types to begin with (one of them, or
+	// every one), used consistently as key of types, as primaryType and as member type:
+	// the mutations below then meet those names
+	focus, odd := "", ""
+	if rapid.IntRange(0, 4).Draw(rt, "oddNames") == 0 {
+		if types := root.Get("types"); rapid.IntRange(0, 2).Draw(rt, "oddAll") == 0 && types != nil {
+			for i := range types.Keys {
+				if types.Keys[i] != eip712ref.DomainType || rapid.IntRange(0, 3).Draw(rt, fmt.Sprintf("oddDomain%d", i)) == 0 {
+					if name, ok := renameOdd(rt, fmt.Sprintf("odd%d", i), root, i); ok && (focus == "" || rapid.Bool().Draw(rt, fmt.Sprintf("oddFocus%d", i))) {
+						focus = name
+					}
+				}
+			}
+		} else if name, ok := renameOdd(rt, "odd", root, -1); ok {
+			focus = name
+		}
+		if focus != "" {
+			odd = "odd-names+"
+		}
+	}
 	n := 1
 	if rapid.IntRange(0, 3).Draw(rt, "multi") == 0 {
 		n = rapid.IntRange(2, 3).Draw(rt, "nmut")
 	}
 	label := ""
 	for i := 0; i < n; i++ {
-		l := mutate(rt, root, i)
+		var l string
+		if types := root.Get("types"); i == 0 && focus != "" && types != nil && types.Kind == 'o' && rapid.IntRange(0, 2).Draw(rt, "oddDef") == 0 {
+			// the definition of an oddly named type is damaged
+			if fi := indexOfKey(types, focus); types.Keys[fi] == focus {
+				l = mutateTypeDef(rt, func(s string) string { return "m0." + s }, types, fi)
+			}
+		}
+		if l == "" {
+			l = mutate(rt, root, i, focus)
+		}
 		if i == 0 {
 			label = l
 		}
@@ -904,6 +1342,7 @@ func genMutant(rt *rapid.T) ([]byte, string) {
 	if n > 1 {
 		label = "multi"
 	}
+	label = odd + label
 	text := []byte(root.Text())
 	if len(text) > maxDocBytes {
 		text = text[:maxDocBytes]
@@ -919,6 +1358,11 @@ func TestCheck(t *testing.T) {
 	rec.Assume("integers: decimal-string and 0x-hex-string spellings must be accepted with the reference digest; the JSON-number spelling (plain, or with fraction/exponent denoting exactly the integer) must be rejected or give that digest; out of range is rejected in every spelling. Non-integral numbers, leading zeros, 0b/0o, '_' and sign-prefixed hex are not asserted")
 	kDoc := evid.NewKind(rec, "doc", judgeDoc).DeclareEach()
 	kInt := evid.NewKind(rec, "int", judgeInt)
+	kHist := evid.NewKind(rec, "history", judgeHistory).DeclareEach()
+	// the same judges from several goroutines at once (documents the library hashes, the heaviest kept)
+	pDoc := evid.NewPool(rec, "concurrent-doc", judgeDocPure, 64)
+	pInt := evid.NewPool(rec, "concurrent-int", judgeInt, 64)
+	pHist := evid.NewPool(rec, "concurrent-history", judgeHistory, 32)
 	rec.Corpus(t)
 
 	// bounded exhaustive: every integer type x boundary values x positions (all spellings inside the judge)
@@ -952,9 +1396,41 @@ func TestCheck(t *testing.T) {
 		}
 	})
 
+	// bounded exhaustive: tiny documents (quick tier: a third of the values for every name x definition x use)
+	t.Run("tiny-docs", func(t *testing.T) {
+		idx := 0
+		for _, name := range tinyNames() {
+			for _, def := range tinyDefs {
+				for ui, use := range tinyUses {
+					for vi, value := range tinyValues {
+						idx++
+						if idx%rec.Shards != rec.Shard {
+							continue
+						}
+						if !rec.Thorough() && (vi+ui+int(rec.Seed))%3 != 0 {
+							continue
+						}
+						text, ok := tinyDoc(name, def, use, value)
+						if !ok {
+							continue
+						}
+						vs := kDoc.EvalLazy(caseOf([]byte(text)), func() (bool, []string) {
+							cl, nt := docClasses("tiny:"+use, []byte(text), lastObs, lastRef)
+							return nt, cl
+						})
+						if len(vs) > 0 {
+							t.Errorf("C14/doc: %s: %s (%s)", vs[0].Clause, strings.SplitN(vs[0].Detail, "\n", 2)[0], clip(text))
+						}
+					}
+				}
+			}
+		}
+	})
+
 	rec.Rapid(t, "int", rec.N(2000, 20000), func(rt *rapid.T) {
 		c := genIntCase(rt)
 		cl, nt := intClasses(c)
+		pInt.Offer(c)
 		kInt.Check(rt, c, nt, cl...)
 	})
 
@@ -962,8 +1438,17 @@ func TestCheck(t *testing.T) {
 		text, label := genMutant(rt)
 		kDoc.CheckLazy(rt, caseOf(text), func() (bool, []string) {
 			cl, nt := docClasses(label, text, lastObs, lastRef)
+			if lastObs.accepted() {
+				pDoc.Offer(caseOf(text))
+			}
 			return nt, cl
 		})
+	})
+
+	rec.Rapid(t, "history", rec.N(1200, 10000), func(rt *rapid.T) {
+		c, cl, nt := genHistory(rt)
+		pHist.Offer(c)
+		kHist.Check(rt, c, nt, cl...)
 	})
 
 	rec.Rapid(t, "arbitrary", rec.N(1500, 10000), func(rt *rapid.T) {
@@ -973,12 +1458,20 @@ func TestCheck(t *testing.T) {
 			return nt, cl
 		})
 	})
+
+	pDoc.Run(t, 8, 3, 16)
+	pInt.Run(t, 8, 3, 16)
+	pHist.Run(t, 8, 2, 8)
 }
 
 func TestReplay(t *testing.T) {
 	rec := evid.Start("C14", rule)
 	evid.NewKind(rec, "doc", judgeDoc).DeclareEach()
 	evid.NewKind(rec, "int", judgeInt)
+	evid.NewKind(rec, "history", judgeHistory).DeclareEach()
+	evid.NewPool(rec, "concurrent-doc", judgeDocPure, 0)
+	evid.NewPool(rec, "concurrent-int", judgeInt, 0)
+	evid.NewPool(rec, "concurrent-history", judgeHistory, 0)
 	rec.Replay(t)
 }
 
@@ -1040,7 +1533,7 @@ func byteMutate(root *eip712ref.JNode, op, a, b, c byte) {
 		n, _ := eip712ref.ParseJSON([]byte(fuzzJunk[int(c)%len(fuzzJunk)]))
 		return n
 	}
-	switch op % 13 {
+	switch op % 14 {
 	case 0:
 		s.parent.Vals[s.idx] = eip712ref.JNull()
 	case 1:
@@ -1096,6 +1589,17 @@ func byteMutate(root *eip712ref.JNode, op, a, b, c byte) {
 			k := s.parent.Keys[s.idx]
 			s.parent.Keys[s.idx] = []string{strings.ToUpper(k), k + " ", "", k + k, "types", "message", "name", "type"}[int(c)%8]
 		}
+	case 13:
+		// give a struct type an odd name, consistently (key of types, primaryType, member types)
+		if types := root.Get("types"); types != nil && types.Kind == 'o' && len(types.Keys) > 0 {
+			old, name := types.Keys[(int(a)<<8|int(b))%len(types.Keys)], oddStructNames[int(c)%len(oddStructNames)]
+			for _, k := range types.Keys {
+				if k == name {
+					return
+				}
+			}
+			renameStruct(root, old, name)
+		}
 	default:
 		// point a string (typically a member type or primaryType) at one of the document's own keys
 		var keys []string
@@ -1105,7 +1609,7 @@ func byteMutate(root *eip712ref.JNode, op, a, b, c byte) {
 			}
 		}
 		if len(keys) > 0 {
-			s.parent.Vals[s.idx] = eip712ref.JStr(keys[int(c)%len(keys)] + []string{"", "[]", "[2]"}[int(op/13)%3])
+			s.parent.Vals[s.idx] = eip712ref.JStr(keys[int(c)%len(keys)] + []string{"", "[]", "[2]"}[int(op/14)%3])
 		}
 	}
 }
@@ -1133,6 +1637,7 @@ func FuzzMutants(f *testing.F) {
 		f.Add(uint8(i), []byte{})
 		f.Add(uint8(i), []byte{1, 0, 7, 3})
 		f.Add(uint8(i), []byte{6, 0, 9, 2, 2, 0, 20, 0})
+		f.Add(uint8(i), []byte{13, 0, 1, 0, 1, 0, 4, 3})
 	}
 	rec := evid.Start("C14", rule)
 	k := evid.NewKind(rec, "doc", judgeDoc)
